@@ -288,6 +288,17 @@ fn run_type<T: Int>(rep: &Report, cli: &Cli) {
             c.done();
         });
     }
+    // (iii-c) BYTE: every byte value before, between and after digits (digit classification of all
+    // 256 byte values in every radix, also inside the 4/8-byte blocks of the multi-digit paths)
+    par_items(&all, cli.threads, |_, &radix| {
+        let mut c = Ck::new(rep, &format!("{}:BYTE", T::NAME));
+        for b in 0..=255u8 {
+            for shape in [&[b][..], &[b'1', b], &[b, b'1'], &[b'1', b, b'1'], &[b'-', b'1', b], &[b'1', b'1', b'1', b, b'1', b'1', b'1', b'1', b'1'], &[b'1', b'1', b'1', b'1', b'1', b'1', b'1', b, b'1']] {
+                c.check::<T>(shape, radix);
+            }
+        }
+        c.done();
+    });
     // (iv) RANGE for 8/16-bit
     if T::TY.bits <= 16 {
         let radices: Vec<u32> = if thorough { all.clone() } else { s_radices.clone() };
